@@ -145,6 +145,14 @@ def run(rep):
                 for f in range(10):
                     cs.add(f"filter_image {f} 0 {tok}", fam="filter_image", f=f, w=w, h=h, ct=ct, depth=depth, il=il,
                            data=data, bpp=bpp, tok=tok)
+    # very long scan lines (the Brute strategy compresses a window of several lines into a scratch buffer; heuristics score long rows)
+    for (ct, depth, w, h) in ([(0, 8, 20000, 5)] if quick else [(0, 8, 20000, 5), (2, 8, 6000, 6), (6, 16, 2600, 5), (0, 1, 70000, 4)]):
+        bpp = depth * pg.CHANNELS[ct]
+        n = pg.raw_size(w, h, bpp, False)
+        data = bytes(rng.randrange(256) for _ in range(n))
+        tok = pg.img_token(w, h, ct, depth, False, None, data)
+        for f in ((9, 5) if quick else (9, 5, 6, 7, 8, 4)):
+            cs.add(f"filter_image {f} 0 {tok}", fam="filter_image", f=f, w=w, h=h, ct=ct, depth=depth, il=False, data=data, bpp=bpp, tok=tok)
     ri = vlib.run_cases(impl, cs.lines)
     # Brute needs the chooser oracle: the filter types oxipng chose
     mlines = []
